@@ -243,10 +243,75 @@ var _ = reserr.ErrAccessDenied
 
 //@ immutable Service.enc
 
-// Creating a connection is not verified here (C20 covers the refusal while stopping).
+// --- fail-stop (C20) ---
+
+//@ immutable Service.conns
+
+// newWSConn: while the service is not running, or is stopping, no connection is created and
+// nothing is registered; otherwise the new connection belongs to this service, has no token,
+// and is registered with the service and with the token-reset fan-out.
 //@ func (*Service).newWSConn
+//@   requires s != nil
+//@   assumes s.conns != nil && s.cache != nil && s.mq != nil && s.cache.conns != nil
+//@   ensures[C20] old(s.stop) == nil || old(s.stopping) ==> result == nil && callcount("AddConn") == old(callcount("AddConn")) &&
+//@       callcount("Subscribe") == old(callcount("Subscribe")) && (forall k string :: has(s.conns, k) == old(has(s.conns, k)))
+//@   ensures[C20,C10] result != nil ==> fresh(result) && predConnOK(result) && result.serv == s && result.subs != nil && !result.disposing &&
+//@       result.token == nil && has(s.conns, result.cid) && s.conns[result.cid] == result && callcount("AddConn") == old(callcount("AddConn")) + 1
+//@   safety[C15]
+
+//@ func (*Service).stopMetricsServer
 //@   trusted
-//@   ensures result != nil ==> predConnOK(result) && !result.disposing && result.subs != nil && result.serv == s
+//@   ensures s.stop == old(s.stop) && s.stopping == old(s.stopping)
+//@ func (*Service).stopHTTPServer
+//@   trusted
+//@   ensures s.stop == old(s.stop) && s.stopping == old(s.stopping)
+//@ func (*Service).stopMQClient
+//@   trusted
+//@   ensures s.stop == old(s.stop) && s.stopping == old(s.stopping)
+
+//@ func (*wsConn).Disconnect
+//@   requires c != nil
+//@   assigns nothing
+//@   safety[C15]
+
+// stopWSHandler asks every registered connection to close its socket.
+//@ func (*Service).stopWSHandler
+//@   requires s != nil
+//@   assumes forall k string :: has(s.conns, k) ==> s.conns[k] != nil
+//@   ensures[C20] callcount("Disconnect") == old(callcount("Disconnect")) + old(card(s.conns))
+//@   ensures[C20] s.stop == old(s.stop) && s.stopping == old(s.stopping)
+//@   safety[C15]
+//@   loop 1 invariant callcount("Disconnect") == old(callcount("Disconnect")) + iters1 && card(s.conns) == old(card(s.conns)) && s.conns == old(s.conns)
+//@   loop 1 invariant s.stop == old(s.stop) && s.stopping == old(s.stopping) && (forall k string :: has(s.conns, k) ==> s.conns[k] != nil)
+
+// Stop: does nothing unless the service is running and not already stopping; otherwise it
+// marks the service as stopping, closes the client sockets before the messaging client, reports
+// the cause on the stop channel exactly once, and leaves the service restartable.
+//@ func (*Service).Stop
+//@   requires s != nil
+//@   ensures[C20] old(s.stop) == nil || old(s.stopping) ==> s.stop == old(s.stop) && s.stopping == old(s.stopping) &&
+//@       sendcount() == old(sendcount()) && callcount("stopWSHandler") == old(callcount("stopWSHandler")) && callcount("stopMQClient") == old(callcount("stopMQClient"))
+//@   ensures[C20] old(s.stop) != nil && !old(s.stopping) ==> s.stop == nil && !s.stopping && sendcount() == old(sendcount()) + 1 && lastsent() == err &&
+//@       callcount("stopWSHandler") == old(callcount("stopWSHandler")) + 1 && callcount("stopMQClient") == old(callcount("stopMQClient")) + 1 &&
+//@       callcount("stopHTTPServer") == old(callcount("stopHTTPServer")) + 1
+//@   assert[C20] s.stopWSHandler#1: s.stopping && s.stop != nil
+//@   assert[C20] s.stopMQClient#1: s.stopping && callcount("stopWSHandler") == old(callcount("stopWSHandler")) + 1 && callcount("stopHTTPServer") == old(callcount("stopHTTPServer")) + 1
+//@   safety[C15]
+
+// Losing the messaging connection stops the service with that cause.
+//@ func (*Service).handleClosedMQ
+//@   requires s != nil
+//@   ensures[C20] callcount("Stop") == old(callcount("Stop")) + 1
+//@   assert[C20] s.Stop#1: arg0 == err
+
+// temporaryConn: when no connection can be created (not running or stopping) the request is
+// answered with 503 and nothing is asked of the services.
+//@ func (*Service).temporaryConn
+//@   requires s != nil && w != nil && r != nil && s.enc != nil
+//@   assumes s.conns != nil
+//@   assert[C20] httpError#1: arg1 == reserr.ErrServiceUnavailable && c == nil
+//@   assert[C20] c.Enqueue#1: c != nil
+//@   safety[C15]
 
 // The HTTP response step: every exit disposes the temporary connection; a service error is
 // answered with its fixed status, where only PUT, DELETE and PATCH turn system.methodNotFound
